@@ -26,7 +26,7 @@ const prefix = "/registry"
 const initRev = 100
 
 var keyPool = []string{"/registry/pods/a", "/registry/pods/b", "/registry/leases/l", "/registry/skip/x",
-	"/registry/skip/sub/y", "/registryfoo/z", "/other/k", "/registry/pods/c"}
+	"/registry/skip/sub/y", "/registryfoo/z", "/other/k", "/registry/pods/c", "/registry/pods.archive/q", "/registry/leases.k8s.io/m"}
 
 var tab = lib.CsNewIntern(keyPool)
 
@@ -42,6 +42,9 @@ var configs = []config{
 	{"nested", []string{"/registry/skip", "/registry/skip/sub"}},
 	{"duplicate", []string{"/registry/skip", "/registry/skip"}},
 	{"sibling", []string{"/registryfoo"}},
+	// one skipped prefix is a string prefix of another one, followed by a byte below '/'
+	{"dot", []string{"/registry/pods", "/registry/pods.archive"}},
+	{"dot2", []string{"/registry/leases.k8s.io", "/registry/leases", "/registry/skip"}},
 }
 
 // ---------- an engine slot that can be swapped under a live backend ----------
@@ -520,6 +523,22 @@ func buildHistory(r *lib.Rand, cfg config, scratch string, corpus int) (*history
 		do("update", "/registryfoo/z", "z13")
 		do("create", "/other/k", "k14")
 		do("update", "/other/k", "k15")
+		do("create", "/registry/pods.archive/q", "q16")
+		do("update", "/registry/pods.archive/q", "q17")
+		do("delete", "/registry/pods.archive/q", "")
+		do("create", "/registry/leases.k8s.io/m", "m19")
+		do("delete", "/registry/leases.k8s.io/m", "")
+		do("create", "/registry/leases/l", "l21")
+		do("update", "/registry/leases/l", "l22")
+		do("delete", "/registry/leases/l", "")
+	case 3: // value,tombstone / value,value,tombstone / value,value: the order of the pass's deletes is load-bearing
+		do("create", "/registry/pods/a", "a1")
+		do("delete", "/registry/pods/a", "")
+		do("create", "/registry/pods/b", "b3")
+		do("update", "/registry/pods/b", "b4")
+		do("delete", "/registry/pods/b", "")
+		do("create", "/registry/pods/c", "c6")
+		do("update", "/registry/pods/c", "c7")
 	case 2: // an earlier pass that failed right after removing the index: index missing above [v, tombstone]
 		do("create", "/registry/pods/a", "a1")
 		do("update", "/registry/pods/a", "a2")
@@ -576,7 +595,7 @@ func main() {
 	args := lib.ParseArgs()
 	backend.VerifSetIntervals(time.Hour, time.Hour)
 	rnd := lib.NewRand(args.Seed)
-	nHist, faultRs, dieEvery, envPer, par := 36, 2, 3, 2, 48
+	nHist, faultRs, dieEvery, envPer, par := 16, 2, 3, 2, 48
 	switch args.Tier {
 	case "thorough":
 		nHist, faultRs, dieEvery, envPer, par = 300, 4, 1, 4, 64
@@ -593,17 +612,20 @@ func main() {
 		specs   []runSpec
 		kind    string
 		idx     int
+		corpus  bool
 	}
 	var cases []*caseJob
 	// histories (sequential, cheap)
 	var hists []*history
-	for i := 0; i < nHist+2*len(configs); i++ {
+	for i := 0; i < nHist+3*len(configs); i++ {
 		cfg := configs[i%len(configs)]
 		corpus := 0
 		if i < len(configs) {
 			corpus = 1
 		} else if i < 2*len(configs) {
 			corpus = 2
+		} else if i < 3*len(configs) {
+			corpus = 3
 		}
 		h, err := buildHistory(rnd.Fork(), cfg, args.Scratch, corpus)
 		if err != nil {
@@ -630,7 +652,7 @@ func main() {
 		cl()
 	}
 
-	engines := []string{lib.EngMem}
+	engines := []string{lib.EngMem, lib.EngMem, lib.EngMem, lib.EngMem, lib.EngMem, lib.EngTiKV}
 	if args.Tier != "quick" {
 		engines = []string{lib.EngMem, lib.EngMem, lib.EngMem, lib.EngBadger, lib.EngTiKV}
 	}
@@ -642,12 +664,18 @@ func main() {
 			Rs = append(Rs, rev)
 		}
 		faultSet := map[int]bool{}
-		for len(faultSet) < faultRs && len(faultSet) < len(Rs) {
+		isCorpus := hi < 3*len(configs)
+		nFault := faultRs
+		if isCorpus {
+			nFault = faultRs + 1
+			faultSet[len(Rs)-1] = true
+		}
+		for len(faultSet) < nFault && len(faultSet) < len(Rs) {
 			// prefer large R: more deletes
 			faultSet[len(Rs)-1-r.Intn((len(Rs)+1)/2)] = true
 		}
 		mk := func(R uint64, reqMode string, withFaults bool, ci int) {
-			cj := &caseJob{h: h, R: R, req: reqMode, kind: h.cfg.name, idx: hi}
+			cj := &caseJob{h: h, R: R, req: reqMode, kind: h.cfg.name, idx: hi, corpus: isCorpus}
 			// reads: Get of every key and List (whole key space, and one limited) at every revision >= R, and at latest
 			lo, hi2 := []byte("/"), []byte("0")
 			top := h.hist + 1
@@ -660,7 +688,7 @@ func main() {
 				if r.Chance(1, 3) {
 					cj.reads = append(cj.reads, readSpec{lo: []byte("/registry/pods/"), hi: []byte("/registry/pods0"), rev: rev, limit: int64(1 + r.Intn(2))})
 				}
-				if rev == from || rev == top || rev == (from+top)/2 {
+				if isCorpus || rev == from || rev == top || rev == (from+top)/2 {
 					for _, k := range keyPool {
 						cj.reads = append(cj.reads, readSpec{get: true, key: []byte(k), rev: rev})
 					}
@@ -766,7 +794,7 @@ func main() {
 		}
 		for i := 0; i < ndel; i++ {
 			add(runSpec{faults: []fault{{i, "other"}}})
-			if (ci+i)%dieEvery == 0 {
+			if cj.corpus || (ci+i)%dieEvery == 0 {
 				add(runSpec{faults: []fault{{i, "die"}}})
 			}
 			if kinds[i] == "KDelCur" {
